@@ -82,7 +82,7 @@ package otel
 //@ func (*Observability).OnHandlerStart
 //@   props C20
 //@   requires o != nil && ctx != nil && ObsInv(o)
-//@   ensures [C20.otel.handler.start] cnt(startCall) == 1 && descends(lastarg(startCall, 1, Iface), ctx) && result == lastresi(startCall, 0, Iface) && cnt(endCall) == 0
+//@   ensures [C20.otel.handler.start] {C20,C08} cnt(startCall) == 1 && descends(lastarg(startCall, 1, Iface), ctx) && result == lastresi(startCall, 0, Iface) && cnt(endCall) == 0
 //@   ensures [C20.otel.handler.count] cnt(addCall) == 1 && lastarg(addCall, 0, Iface) == o.handlerCounter && lastarg(addCall, 2) == 1
 //@ func (*Observability).OnHandlerComplete
 //@   props C20
